@@ -243,6 +243,13 @@ pub open spec fn nb(s: ObjString, i: int) -> int
 {
     if i <= 0 { 0 } else { nb(s, i - 1) + (if s.is_cb(i - 1) { 1int } else { 0int }) }
 }
+proof fn lemma_nb_mono(s: ObjString, a: int, b: int)
+    requires 0 <= a <= b
+    ensures nb(s, a) <= nb(s, b)
+    decreases b - a
+{
+    if a < b { lemma_nb_mono(s, a, b - 1); }
+}
 proof fn lemma_nb_bounds(s: ObjString, i: int)
     requires 0 <= i
     ensures 0 <= nb(s, i) <= i
@@ -262,12 +269,12 @@ proof fn lemma_nb_bounds(s: ObjString, i: int)
 //@  ensures num_args == 1 && (old(vm).slot(1) matches Value::ObjString(s) && value_int(old(vm).slot(0)) matches Some(n) && 0 <= norm(n, nb(s.obj(), s.obj().blen() as int)) < nb(s.obj(), s.obj().blen() as int)) ==> r is Ok
 //@  at body.start broadcast use axiom_cb; broadcast use axiom_value_int_number;
 //@  loop 0 iter it
-//@  loop 0 invariant it.snapshot.start == 0, it.snapshot.end == string.obj().blen() + 1, string.obj().blen() <= isize::MAX
+//@  loop 0 invariant it.snapshot.start == 0, string.obj().blen() <= it.snapshot.end <= string.obj().blen() + 1, string.obj().blen() <= isize::MAX
 //@  loop 0 invariant char_count as int == nb(string.obj(), it.index@ as int), char_count <= char_index, char_index < nb(string.obj(), string.obj().blen() as int)
 //@  loop 0 invariant old(vm).slot(1) == Value::ObjString(string), num_args == 1
 //@  loop 0 invariant value_int(old(vm).slot(0)) matches Some(n) && norm(n, nb(string.obj(), string.obj().blen() as int)) == char_index
 //@  at loop0.start proof { lemma_nb_bounds(string.obj(), i as int); axiom_cb_ends(string.obj()); }
-//@  before_stmt "Err(verif_error(" proof { axiom_cb_ends(string.obj()); assert(nb(string.obj(), string.obj().blen() as int + 1) == nb(string.obj(), string.obj().blen() as int) + 1); }
+//@  before_stmt "Err(verif_error(" proof { lemma_nb_mono(string.obj(), string.obj().blen() as int, string.obj().blen() as int + 1); }
 //@end
 
 // ------------------------------------------------------------------ C18 / C13: native iterators
